@@ -112,8 +112,15 @@ class _Env:
         return self.asg[k]
 
 
+_OPT = {'bool_returns': False}
+
+
 def _collect(stmts, out, objs, descend_loops, flags=()):
     for st in stmts:
+        if _OPT['bool_returns'] and isinstance(st, ast.Return) and st.value is not None and _boolform(st.value):
+            for at, pol in all_atoms(st.value):
+                out.add(at.text)
+                objs.setdefault(at.text, at)
         if isinstance(st, ast.Assign) and len(st.targets) == 1 and isinstance(st.targets[0], ast.Name) and st.targets[0].id in flags:
             for at, pol in all_atoms(st.value):
                 out.add(at.text)
@@ -149,6 +156,9 @@ def _run(stmts, asg, events, event_of, terminal_yield, descend_loops):
             branch = st.body if eval_struct(literals(st.test), asg) else st.orelse
             _run(branch, asg, events, event_of, terminal_yield, descend_loops)
         elif isinstance(st, (ast.Return, ast.Raise, ast.Continue, ast.Break)):
+            if _OPT['bool_returns'] and isinstance(st, ast.Return) and st.value is not None and _boolform(st.value) and \
+                    not isinstance(st.value, ast.Constant):
+                raise _Outcome(ast.copy_location(ast.Return(value=ast.Constant(value=bool(eval_struct(literals(st.value), asg)))), st))
             raise _Outcome(st)
         elif terminal_yield and isinstance(st, ast.Expr) and isinstance(st.value, (ast.Yield, ast.YieldFrom)):
             raise _Outcome(st)
@@ -166,8 +176,17 @@ def _run(stmts, asg, events, event_of, terminal_yield, descend_loops):
                     raise
 
 
-def table(stmts, classify, event_of=None, terminal_yield=True, descend_loops=False):
-    """classify(node or None) -> outcome label; event_of(stmt) -> label or None"""
+def table(stmts, classify, event_of=None, terminal_yield=True, descend_loops=False, bool_returns=False):
+    """classify(node or None) -> outcome label; event_of(stmt) -> label or None.
+    bool_returns: `return <comparison / not / and / or>` is evaluated and classified as `return True` / `return False`"""
+    _OPT['bool_returns'] = bool_returns
+    try:
+        return _table(stmts, classify, event_of, terminal_yield, descend_loops)
+    finally:
+        _OPT['bool_returns'] = False
+
+
+def _table(stmts, classify, event_of, terminal_yield, descend_loops):
     atoms, objs = set(), {}
     flags = _flag_names(stmts, descend_loops)
     _collect(stmts, atoms, objs, descend_loops, flags)
